@@ -314,6 +314,12 @@ func checkC01(c *Ctx) {
 	nE := c.borrow(checkC05, "C05/TABLE/predicates/policy.ShouldStoreDomain", "C01/STORE/eligible", "the store decision of an accepted recipient is DefaultStore∧¬in(DiscardDomains) ∨ ¬DefaultStore∧in(StoreDomains), for every combination of the three atoms")
 	r.Floor("C01/STORE/eligible", "borrowed obligations", nE, 1)
 
+	// each copy carries the whole message (its size): the reader handed to a store is built per
+	// destination from the unmodified source (decided by C02's concatenation rule); a reader
+	// shared by the iterations is at EOF after the first AddMessage
+	nCp := c.borrow(func(c2 *Ctx) { c2.c02Deliver() }, "C02/DELIVER/concat", "C01/COPY/per-destination", "the content of each stored copy is header text followed by a reader over the unmodified source, created for that destination")
+	r.Floor("C01/COPY/per-destination", "borrowed obligations", nCp, 1)
+
 	// ---- D6
 	t := c.smtpTypestate(m)
 	for _, u := range t.undec {
@@ -768,7 +774,7 @@ func (c *Ctx) c01Meta(deliver *ssa.Function, adds []*ssa.Call, anchor ssa.Instru
 			// element of the ranged Mailboxes
 			okMb := false
 			if u, ok := p.Actual(st.Val).(*ssa.UnOp); ok {
-				if ia, ok := u.X.(*ssa.IndexAddr); ok && eng.SameField(eng.LoadedField(ia.X), fMailboxes) {
+				if ia, ok := u.X.(*ssa.IndexAddr); ok && eng.SameField(eng.LoadedField(ia.X), fMailboxes) && isRangeCounter(ia.Index) && len(loopHeaders(ia.Block())) == 1 {
 					if p.Actual(ia.X.(*ssa.UnOp).X.(*ssa.FieldAddr).X) == postHook {
 						okMb = true
 					}
